@@ -308,6 +308,12 @@ class RendererHTML(RendererProtocol):
 
         return self.renderToken(tokens, idx, options, env)
 
+    def definition(
+        self, tokens: Sequence[Token], idx: int, options: OptionsDict, env: EnvType
+    ) -> str:
+        # reference definitions (``inline_definitions`` option) produce no HTML
+        return ""
+
     def hardbreak(
         self, tokens: Sequence[Token], idx: int, options: OptionsDict, env: EnvType
     ) -> str:
